@@ -66,6 +66,10 @@ def xml_tree(xml):
 
 def legal_on_tree(parent, children, kind, cfg):
     ids = set(cfg)
+    if any(i not in kind for i in cfg) or any(n.startswith('?') for n in kind):
+        # a state without id (the damage removed it) is reported by the engine under an XPath the document-side tree does not
+        # know: such a configuration cannot be judged by name
+        return None
     for i in cfg:
         if i not in kind:
             continue   # an element the damaged document names differently: cannot be judged
